@@ -321,14 +321,31 @@ func c04Scenario(c *Ctx, idx int, r *Rng) (mlines, mimpl, mcase []string) {
 		os.MkdirAll(filepath.Join(cl.dir, ".git", "objects", "info"), 0o755)
 		os.WriteFile(filepath.Join(cl.dir, ".git", "objects", "info", "alternates"), []byte(filepath.Join(refstore, "objects")+"\n"), 0o644)
 	}
-	if viaConfig {
-		if len(inc) > 0 {
-			cl.git("config", "lfs.fetchinclude", patTexts(inc))
+	// where each side of the selection comes from: -I replaces only lfs.fetchinclude, -X only
+	// lfs.fetchexclude; the other side keeps coming from the configuration
+	incViaConfig, excViaConfig := viaConfig, viaConfig
+	if !viaConfig && (cmdKind == "fetch" || cmdKind == "pull") && r.Chance(60) {
+		// both sides present and overlapping, one from the command line and one from the configuration
+		if len(inc) == 0 {
+			inc = []c04Pat{Pick(r, []c04Pat{c04Pats[0], c04Pats[1], c04Pats[2]})}
 		}
-		if len(exc) > 0 {
-			cl.git("config", "lfs.fetchexclude", patTexts(exc))
+		if len(exc) == 0 {
+			exc = []c04Pat{Pick(r, []c04Pat{c04Pats[2], c04Pats[4], c04Pats[5], c04Pats[7]})}
 		}
+		if r.Bool() {
+			incViaConfig = true
+		} else {
+			excViaConfig = true
+		}
+		c.R.Count("selection.mixed-flag-and-config")
 	}
+	if incViaConfig && len(inc) > 0 {
+		cl.git("config", "lfs.fetchinclude", patTexts(inc))
+	}
+	if excViaConfig && len(exc) > 0 {
+		cl.git("config", "lfs.fetchexclude", patTexts(exc))
+	}
+	log("include via %s, exclude via %s", map[bool]string{true: "config", false: "flag"}[incViaConfig], map[bool]string{true: "config", false: "flag"}[excViaConfig])
 	// ---- local working-tree states
 	mutates := cmdKind == "pull" || cmdKind == "checkout"
 	for _, f := range files {
@@ -396,13 +413,11 @@ func c04Scenario(c *Ctx, idx int, r *Rng) (mlines, mimpl, mcase []string) {
 	switch cmdKind {
 	case "fetch", "pull":
 		args = []string{cmdKind}
-		if !viaConfig {
-			if len(inc) > 0 {
-				args = append(args, "-I", patTexts(inc))
-			}
-			if len(exc) > 0 {
-				args = append(args, "-X", patTexts(exc))
-			}
+		if !incViaConfig && len(inc) > 0 {
+			args = append(args, "-I", patTexts(inc))
+		}
+		if !excViaConfig && len(exc) > 0 {
+			args = append(args, "-X", patTexts(exc))
 		}
 	case "fetch-all":
 		args = []string{"fetch", "--all"}
